@@ -95,6 +95,9 @@ class WebBrowser(Application, discriminator="web-browser"):
         url = url or self.config.target_url
         if not self._can_perform_action():
             return False
+        if not url:
+            self.sys_log.warning(f"{self.name}: No URL to request")
+            return False
 
         self.num_executions += 1  # trying to connect counts as an execution
 
